@@ -4,7 +4,7 @@ import ast
 from ..framework import rule
 from ..astutil import dotted, call_name, call_recv, norm, walk_local, unparse, ancestors
 from .. import q
-from .common import assigned_value, kw, arg, enclosing_for
+from .common import assigned_value, kw, arg, enclosing_for, new_cells_validates_name
 
 META = {
     "explanation": (
@@ -462,9 +462,13 @@ def r2(ctx, R):
                 R.bad(f, t, "a name that is not a valid identifier (or starts with an underscore) can become the name of a "
                             "%s" % ("model" if "Model" in spec else "space or cells"))
     ci = ctx.func("CellsImpl.__init__")
-    R.inst("CellsImpl.__init__: name is base.name, a valid name, the formula's valid name, or an auto-name")
+    at_site = new_cells_validates_name(ctx)
+    R.inst("a cells is constructed only with a valid or auto-generated name (new_cells resolves it; else CellsImpl.__init__ must)")
+    R.slot("cells name resolved in", "SpaceManager.new_cells" if at_site else "CellsImpl.__init__")
     vals = sorted(norm(v) for v in assigned_value(ci, "name"))
-    if vals != ["Formula(formula).name", "base.name", "space.cellsnamer.get_next(space.namespace)",
+    if at_site:
+        R.note("CellsImpl.__init__'s naming fallback is unreachable with an invalid name: new_cells draws the name first")
+    elif vals != ["Formula(formula).name", "base.name", "space.cellsnamer.get_next(space.namespace)",
                 "space.cellsnamer.get_next(space.namespace)"]:
         R.bad(ci, ci.node, "cells name sources changed: %s" % vals, stmt="name =")
     else:
@@ -551,16 +555,25 @@ def r3(ctx, R):
         for c in q.calls(f, name=("add_edge", "add_node", "remove_edge", "remove_node", "remove_nodes_from", "add_edges_from")):
             if "self.manager._graph" in norm(c.func.value):
                 R.bad(f, c, "the live inheritance graph is edited before the operation is known to succeed")
-    for spec in ("SpaceUpdater.new_space", "SpaceUpdater.add_bases"):
+    for spec in ("SpaceUpdater.new_space", "SpaceUpdater.add_bases", "SpaceUpdater.remove_bases"):
         f = ctx.func(spec)
         ex = q.calls(f, name="execute", recv_endswith="_instructions")
         acyc = [r_ for r_ in q.raises(f, "ValueError") if any("is_directed_acyclic_graph" in t and l == "F" for t, l in q.guards_of(f, r_))]
         mro = q.calls(f, name="get_mro")
         R.inst("%s: acyclicity and the MRO of the node and every descendant are tested before the first instruction" % spec)
-        if not acyc:
+        if not acyc and spec != "SpaceUpdater.remove_bases":      # removing an edge cannot close a cycle
             R.bad(f, f.node, "cyclic inheritance is not refused", stmt="is_directed_acyclic_graph")
-        if len(mro) < 2 or not any("descendants" in norm(enclosing_for(f, c).iter) for c in mro if enclosing_for(f, c) is not None):
-            R.bad(f, f.node, "linearisation of the descendants is not tested", stmt="get_mro(descendants)")
+        in_desc = [c for c in mro if enclosing_for(f, c) is not None and "descendants" in q.rnorm(f, enclosing_for(f, c).iter)]
+        covers_self = any("{node}" in q.rnorm(f, enclosing_for(f, c).iter).replace("space.idstr", "node") or "[node]" in
+                          q.rnorm(f, enclosing_for(f, c).iter).replace("space.idstr", "node") for c in in_desc) or len(mro) >= 2
+        if not in_desc or not covers_self:
+            R.bad(f, f.node, "linearisation of the space and of its descendants is not tested before members are re-derived: "
+                             "a rejected base edit leaves a half re-derived space", stmt="get_mro(descendants)")
+        for c in in_desc:
+            if enclosing_for(f, c) is not None and [q.anorm(f, a) for a in c.args] != [norm(enclosing_for(f, c).target)]:
+                R.bad(f, c, "the MRO test does not visit each descendant")
+            if "self._graph" != q.anorm(f, c.func.value):
+                R.bad(f, c, "the MRO is tested on the live graph, not on the edited copy")
         for x in acyc + mro:
             if ex and q.path_between(f, ex[0], x):
                 R.bad(f, x, "hierarchy is validated after members were already re-derived")
